@@ -38,8 +38,10 @@ def case_strategy(draw):
     spec["cols"].append({"name": "c1", "kind": "str", "values": ["only"] * n})
     # floats that differ only beyond the twelfth significant digit are still different levels
     spec["cols"].append({"name": "fl", "kind": "float", "values": [[0.1 + 0.2, 0.3, 1e15, 1e15 + 1][i % 4] for i in range(n)]})
+    # levels that differ only in blanks around them (fixed-width files) are different levels with different labels
+    spec["cols"].append({"name": "ws", "kind": "str", "values": [["north", "north ", " north", "south"][(i * 3) % 4] for i in range(n)]})
     long_call = "I(" + " + ".join(["x", "z"] * 14) + ")"  # a term name of more than a hundred characters
-    extra = draw(st.sampled_from([None, None, None, "c1", "c1", "(c1 | g)", "offset(z)", "offset(2.5)", "offset(np.abs(x))", "C(fl)", "(1 | fl)", long_call,
+    extra = draw(st.sampled_from([None, None, None, "c1", "c1", "(c1 | g)", "offset(z)", "offset(2.5)", "offset(np.abs(x))", "C(fl)", "(1 | fl)", "ws", "C(ws)", "x:ws", "(1 | ws)", long_call,
                                   long_call + ":f"]))
     if extra is not None:
         trailer = " - 1" if d["formula"].rstrip().endswith("- 1") else ""
